@@ -39,6 +39,19 @@ func vMakeScript(kind int) (script []string, nick, channel, user string) {
 		}
 		return
 	}
+	if kind == 2 {
+		// the tracker-centred session with the server using the optional IRCv3 batch form
+		// (a netjoin batch: the members carry a batch tag between BATCH +ref and BATCH -ref)
+		nick = "me"
+		script = []string{
+			":me!i@h JOIN " + channel,
+			":srv BATCH +r netjoin",
+			"@batch=r :" + user + "!i@h JOIN " + channel,
+			"@batch=r :" + user + "!i@h NICK " + user + "x",
+			":srv BATCH -r",
+		}
+		return
+	}
 	script = []string{
 		":srv 001 " + nick + " :Welcome",
 		":" + nick + "!i@h JOIN " + channel,
@@ -87,6 +100,9 @@ func (s *vSess) applied(seq int) bool {
 	if s.kind == 1 {
 		return s.progress() >= seq
 	}
+	if s.kind == 2 {
+		return s.progress() >= vBatchNeed[seq]
+	}
 	switch seq {
 	case 0:
 		return s.conn.Me().Nick == s.nick
@@ -124,7 +140,15 @@ func (s *vSess) progress() int {
 }
 
 // stateful: script lines whose effect on the client / tracker the harness can observe.
-func (s *vSess) stateful(seq int) bool { return s.kind == 1 || seq == 0 || seq == 1 || seq == 3 }
+func (s *vSess) stateful(seq int) bool {
+	if s.kind == 2 {
+		return seq == 2 || seq == 3
+	}
+	return s.kind == 1 || seq == 0 || seq == 1 || seq == 3
+}
+
+// vBatchNeed: how far the tracker must have got (progress()) to reflect line seq of the batch script.
+var vBatchNeed = []int{0, 0, 1, 2, 2}
 
 func (s *vSess) anyActive() bool {
 	for _, n := range s.activeFG {
@@ -219,6 +243,8 @@ func VerifSession() {
 	slim := vParam("SLIM", 0) == 1 // fewer handler-behaviour and chunking variants (used where another dimension is the subject)
 	if slim {
 		s.tseq, s.tid, s.tbeh = 0, 0, vLen("tbeh", 0, 1)
+	} else if ts := vParam("TSEQ", -1); ts >= 0 {
+		s.tseq, s.tid, s.tbeh = ts, vLen("tid", 0, 2), vLen("tbeh", 0, 1) // the misbehaving invocation is on a given line
 	} else {
 		s.tseq, s.tid, s.tbeh = vLen("tseq", 0, n-1), vLen("tid", 0, 2), vLen("tbeh", 0, 3)
 	}
@@ -237,7 +263,7 @@ func VerifSession() {
 	nchunk := 3
 	if slim {
 		nchunk = 0
-	} else if frag {
+	} else if frag || vParam("TSEQ", -1) >= 0 {
 		nchunk = 1
 	}
 	switch vLen("chunking", 0, nchunk) {
@@ -275,7 +301,7 @@ func VerifSession() {
 	if s.track {
 		conn.EnableStateTracking()
 	}
-	for _, ev := range []string{"001", "JOIN", "PING", "PRIVMSG", "NICK", "MODE", "TOPIC"} {
+	for _, ev := range []string{"001", "JOIN", "PING", "PRIVMSG", "NICK", "MODE", "TOPIC", "BATCH"} {
 		conn.HandleFunc(ev, s.handler(0, true))
 		conn.HandleFunc(ev, s.handler(1, true))
 		conn.HandleBG(ev, s.handler(2, false))
